@@ -1,20 +1,21 @@
-\* behaviour export: every two-cut behaviour of a reduced configuration
+\* behaviour export: one cut anywhere, then runs of k = 1 .. MaxRetries + 1 resumed bodies that end at offset 0, then a whole body
 \* (tools/checks/c09.py builds its configurations from the same template - the Fix* switches of the configurations that model
 \*  the real code come from its REPAIRED table; this file is the thorough-tier one, for manual runs:
-\*  java -cp $TLA_CP tlc2.TLC -config StreamCli_gen2.cfg StreamCliMC)
+\*  java -cp $TLA_CP tlc2.TLC -config StreamCli_genR.cfg StreamCliMC)
 SPECIFICATION Spec
 CONSTANTS
   KindSet = {"post", "sa"}
-  ShapeSet <- TwoShapes
-  SchemeSet = {"nested"}
+  ShapeSet <- IdShapes
+  SchemeSet = {"dec"}
   MSet = {2}
-  MRSet = {1, 2}
-  MaxCuts = 2
-  ClassSet = {"bnd", "field", "name", "id", "idfull", "data", "datafull"}
-  AnswerSet = {"terr", "ok", "429", "403"}
+  MRSet = {1, 2, 3}
+  MaxCuts = 5
+  ClassSet = {"bnd", "data"}
+  AnswerSet = {"terr", "ok", "502"}
   TailSet = {"good"}
   FixScanner = FALSE
   FixCursor = TRUE
   Fix5xx = TRUE
+CONSTRAINT Runs
 INVARIANTS Export
 CHECK_DEADLOCK FALSE
